@@ -1,6 +1,6 @@
 // C19 - etl::extents: every constructor / conversion / observer against the shape it was given.
 // Build: -DVF_IDX=<index type> -DVF_IDX_NAME="..." [-DVF_PLO= -DVF_PHI= -DVF_PSTEP=] (pattern slice, see vf_c19.hpp)
-// Case space: (pattern, shape in {0..4}^rank consistent with the static positions) x 8 operation groups
+// Case space: (pattern, shape in {0..4}^rank consistent with the static positions) x 9 operation groups
 // (one group per case so that a sanitizer abort in one constructor form does not hide the others).
 #include "vf.hpp"
 #include "vf_contract.hpp"
@@ -10,7 +10,7 @@
 namespace {
 using namespace c19;
 
-constexpr unsigned NGROUP = 8;
+constexpr unsigned NGROUP = 9;
 std::string const SUBJ    = std::string("extents<") + IDXN + ">";
 
 vf::Spec spec(vf::Tier t)
@@ -300,6 +300,18 @@ struct Run {
             convert<E, E3>(c, "extents(extents<OtherIndexType>):from-other-signedness", 4);
             break;
         }
+        case 8:
+            // every other pattern of the same rank with compatible static extents (both directions are reached: the
+            // reverse conversion is the same operation in the target pattern's own cases)
+            for_each_target<Idx, VF_PLO + K * VF_PSTEP, 1000>([&]<typename F, std::size_t GF>() {
+                if (!shape_matches<F>(sh)) { return; } // precondition of the conversion
+                if constexpr (F::rank_dynamic() == RD) {
+                    convert<F, E>(c, "extents(extents<Other>):same-rank_dynamic,other-positions", GF);
+                } else {
+                    convert<F, E>(c, "extents(extents<Other>):other-static/dynamic-pattern", GF);
+                }
+            });
+            break;
         default: break;
         }
     }
@@ -331,7 +343,7 @@ void run_case(vf::Case& c)
         // a few concrete cases per pattern class (skip the degenerate all-zero shapes so the evidence shows real ones)
         std::string const lab = std::string("ext:") + x.p->cls;
         if ((x.p->rank == 0 || product(x.shape, x.p->rank) > 1) && vf::want_sample(lab.c_str())) {
-            vf::sample(lab.c_str(), "extents<%s,%s> built for shape %s, operation group %u of 8 (all constructor/conversion forms of that group, extent(r) read back)", IDXN, x.p->name, x.desc.c_str(), x.group);
+            vf::sample(lab.c_str(), "extents<%s,%s> built for shape %s, operation group %u of 9 (all constructor/conversion forms of that group, extent(r) read back)", IDXN, x.p->name, x.desc.c_str(), x.group);
         }
     }
     begin(x, "setup:extents(OtherIndexTypes...):N=rank_dynamic"); // any fault before the first operation's own breadcrumb is the basic constructor's
